@@ -901,6 +901,58 @@ func checkC09(P *Prog, r *Result) {
 			P.checkLoopBody(r, fn, l, lname)
 		}
 	}
+	// issue-container reads: the struct field loop reaches every node function; a node that consults the
+	// execution-wide issue container (HasErrored / IsEmpty) makes its behaviour depend on which siblings were
+	// visited before it. The only accepted reader is the deferred post-transform gate (post-transform issues are
+	// outside the statement).
+	for _, nf := range P.nodeFuncs() {
+		var bad []string
+		eachInstr(nf, func(_ *ssa.BasicBlock, _ int, in ssa.Instruction) {
+			ci := callOf(in)
+			if ci == nil {
+				return
+			}
+			name := ""
+			if ci.static != nil {
+				name = ci.static.Name()
+			} else if ci.invoke != nil {
+				name = ci.invoke.Name()
+			}
+			if name == "HasErrored" || name == "IsEmpty" {
+				bad = append(bad, P.ipos(in))
+			}
+		})
+		// closures: allowed only as the guard of the post-transform loop
+		for _, cl := range nf.AnonFuncs {
+			hasPT := false
+			eachInstr(cl, func(_ *ssa.BasicBlock, _ int, in ssa.Instruction) {
+				if P.callbackRole(callOf(in)) == "postTransform" {
+					hasPT = true
+				}
+			})
+			eachInstr(cl, func(_ *ssa.BasicBlock, _ int, in ssa.Instruction) {
+				ci := callOf(in)
+				if ci == nil {
+					return
+				}
+				name := ""
+				if ci.static != nil {
+					name = ci.static.Name()
+				} else if ci.invoke != nil {
+					name = ci.invoke.Name()
+				}
+				if (name == "HasErrored" || name == "IsEmpty") && !hasPT {
+					bad = append(bad, P.ipos(in))
+				}
+			})
+		}
+		if len(bad) > 0 {
+			r.bad("C09/issue-container-reads", fname(nf), bad[0], "the node consults the execution-wide issue container outside the post-transform gate: whether it runs its tests / reports its issues depends on which sibling fields were visited before it ("+strings.Join(bad, ", ")+")")
+		} else {
+			r.ok("C09/issue-container-reads", fname(nf), P.pos(nf.Pos()), "the issue container is read only by the deferred post-transform gate")
+		}
+	}
+	r.floor("C09/issue-container-reads", 20)
 	r.Instances["C09/map-range-loops"] = nLoops
 	r.floor("C09/map-range-loops", 7)
 	_ = R
